@@ -245,8 +245,10 @@ func (r *Rule) doEvaluate(logger debuglog.Logger, phase types.RulePhase, tx *Tra
 			var values []types.MatchData
 			for _, c := range ecol {
 				if c.Variable == v.Variable {
-					// TODO shall we check the pointer?
-					v.Exceptions = append(v.Exceptions, ruleVariableException{c.KeyStr, c.KeyRx})
+					// v is a copy of the rule's variable but its Exceptions still share the
+					// backing array with the rule, which concurrent transactions read and
+					// append to: cap the slice so that append always copies.
+					v.Exceptions = append(v.Exceptions[:len(v.Exceptions):len(v.Exceptions)], ruleVariableException{c.KeyStr, c.KeyRx})
 				}
 			}
 
